@@ -68,7 +68,7 @@ class Run:
         self.notes.append(s)
 
 
-VIEWS = ("cons-broad", "cons", "aggr-broad", "aggr")
+VIEWS = ("new", "cons-broad", "cons", "aggr-broad", "aggr")
 
 
 def _call_rule(run, fn, db):
